@@ -237,7 +237,10 @@ def build(spec: NetSpec, names=None, order=None, override=None, netname="net", t
         from .graphmodel import as_probe_subclass, as_reordering_subclass, as_user_subclass
         for o in obj.values():
             {"probe": as_probe_subclass, "reorder": as_reordering_subclass}.get(subclass, as_user_subclass)(o)
-    net = M.Network(name=netname)
+    if subclass:
+        net = type("UserNetwork", (M.Network,), {})(name=netname)  # ... and the network itself of a user subclass
+    else:
+        net = M.Network(name=netname)
     for call in (order or default_order(spec)):
         k = call[0]
         if k == "nodes":
